@@ -78,17 +78,17 @@ Definition v_as_scalar (v : vhdr) : vhdr := mkV (v_n v) 1 1 1 (v_n v * v_w v) (v
 (* ---- deserialisation: ReaderFrom for VecZnx (w = 8) ----
    stream header = (n, cols, size, max_size, len) as u64; release arithmetic: the product wraps mod 2^64.
    `avail` = number of payload bytes the stream still holds after the header. *)
-Record stream_hdr : Type := mkS { s_n : Z; s_cols : Z; s_size : Z; s_max : Z; s_len : Z }.
+Record stream_hdr : Type := mkS { sh_n : Z; sh_cols : Z; sh_size : Z; sh_max : Z; sh_len : Z }.
 Definition U64 : Z := 2 ^ 64.
 Inductive read_res : Type :=
 | RErr                      (* io::Error returned, receiver untouched *)
 | ROk (v : vhdr).           (* Ok(()), receiver's header now v *)
 Definition v_read_from (v : vhdr) (h : stream_hdr) (avail : Z) : read_res :=
-  let expected := (s_n h * s_cols h * s_size h * 8) mod U64 in
-  if negb (expected =? s_len h) then RErr
-  else if v_len v <? s_len h then RErr
-  else if avail <? s_len h then RErr                      (* read_exact fails *)
-  else ROk (mkV (s_n h) (s_cols h) (s_size h) (s_max h) (v_len v) (v_w v)).
+  let expected := (sh_n h * sh_cols h * sh_size h * 8) mod U64 in
+  if negb (expected =? sh_len h) then RErr
+  else if v_len v <? sh_len h then RErr
+  else if avail <? sh_len h then RErr                      (* read_exact fails *)
+  else ROk (mkV (sh_n h) (sh_cols h) (sh_size h) (sh_max h) (v_len v) (v_w v)).
 (* WriterTo: what a well-formed writer emits *)
 Definition v_write_hdr (v : vhdr) : stream_hdr :=
   mkS (v_n v) (v_cols v) (v_size v) (v_max v) (v_n v * v_cols v * v_size v * 8).
